@@ -66,6 +66,15 @@ fn replay_once<'p>(p: &'p Program, hist: &[HEv], cfg: &MachineCfg, partial: bool
                 if m.pc(t) != ev.pc as usize {
                     return Err(format!("T{} returned from op {} but the reference is at {}", t, ev.pc, m.pc(t)));
                 }
+                if m.is_block_on2(t) {
+                    // every load of a two-flag future is logged; the last poll must have seen both
+                    if !m.block_on2_ready(t) {
+                        return Err(format!("T{} pc{}: block_on returned although its last poll did not find both flags set", t, ev.pc));
+                    }
+                    step_checked(&mut m, t, None, ch)?;
+                    invoked[t] = None;
+                    continue;
+                }
                 if m.is_block_on(t) {
                     // the final poll read the awaited value
                     advance_hidden(&mut m, t, ch)?;
